@@ -69,7 +69,9 @@ def gen_case(case_seed, cfg):
     if kind == "lineage":
         return gen_lineage_case(case_seed, r)
     n_ops = r.choice([2, 4, 6, 10, 16, 24])
-    base, ops = history.gen_history(r, n_ops, ALPHABET, allow_ode=True)
+    pr = seeds.rng(case_seed, "param_rule").random() < 0.15
+    base, ops = history.gen_history(r, n_ops, ALPHABET, allow_ode=True, param_rule_stratum=pr,
+                                    param_rule_freqs=("repeated", "dt", 1.0, 0.25, 2.5))
     if not any(o[0].startswith("restart") for o in ops):
         ops.insert(len(ops) - 1, ["restart_pickle", 4, "set_parameter", "restored"])
     return {"base": base, "ops": ops, "stratum": kind, "pseed": seeds.derive(case_seed, "p")}
